@@ -469,7 +469,8 @@ class Loop(Node):
         self[:] = iter(child)
         # the merged child no longer lists the children that moved to self: editing it through a reference the caller
         # still holds (reverse_inplace, encapsulate, slice assignment) would renumber / re-parent nodes of this tree
-        Node.__setitem__(child, slice(None), ())
+        # (child was detached by the assignment above; Loop.__setitem__ also drops its cached duration)
+        child[:] = ()
         self._waveform = child._waveform
         self._repetition_definition = repetition_definition
         self._measurements = measurements
